@@ -1,0 +1,23 @@
+//go:build verif
+
+// White-box access for the /verif C04 check. Compiled only with -tags verif.
+// Add-only: nothing here is referenced by the regular build.
+
+package raft
+
+import (
+	pb "github.com/lni/dragonboat/v4/raftpb"
+)
+
+// VerifC04UpdateFlags runs validateUpdate and setFastApply, the two steps
+// Peer.GetUpdate applies to the update before handing it to the engine.
+func VerifC04UpdateFlags(ud pb.Update) (fast bool, panicked bool) {
+	defer func() {
+		if r := recover(); r != nil {
+			panicked = true
+		}
+	}()
+	validateUpdate(ud)
+	ud = setFastApply(ud)
+	return ud.FastApply, false
+}
